@@ -138,6 +138,210 @@ fn features_sig(r: &Rendered) -> String {
     "plain".to_string()
 }
 
+/// decode the slice of a text span: character data and CDATA parts, references, line ends
+fn decode_text_slice(source: &str, start: usize, end: usize) -> Result<String, String> {
+    let mut cdata = source[..start].ends_with("<![CDATA[");
+    let s = &source[start..end];
+    let mut out = String::new();
+    let mut i = 0;
+    let b = s.as_bytes();
+    while i < s.len() {
+        let rest = &s[i..];
+        if cdata {
+            if rest.starts_with("]]>") {
+                cdata = false;
+                i += 3;
+                continue;
+            }
+        } else {
+            if rest.starts_with("<![CDATA[") {
+                cdata = true;
+                i += 9;
+                continue;
+            }
+            if b[i] == b'&' {
+                let semi = rest.find(';').ok_or("unterminated reference in the slice")?;
+                let name = &rest[1..semi];
+                let c = match name {
+                    "lt" => '<',
+                    "gt" => '>',
+                    "amp" => '&',
+                    "apos" => '\'',
+                    "quot" => '"',
+                    _ => {
+                        let v = if let Some(h) = name.strip_prefix("#x") {
+                            u32::from_str_radix(h, 16).map_err(|_| "bad hex reference")?
+                        } else if let Some(d) = name.strip_prefix('#') {
+                            d.parse::<u32>().map_err(|_| "bad decimal reference")?
+                        } else {
+                            return Err(format!("unknown entity {:?}", name));
+                        };
+                        char::from_u32(v).ok_or("bad code point")?
+                    }
+                };
+                out.push(c);
+                i += semi + 1;
+                continue;
+            }
+        }
+        let c = rest.chars().next().unwrap();
+        if c == '\r' {
+            out.push('\n');
+            i += 1;
+            if s[i..].starts_with('\n') {
+                i += 1;
+            }
+        } else {
+            out.push(c);
+            i += c.len_utf8();
+        }
+    }
+    Ok(out)
+}
+
+fn decode_attr_slice(s: &str, xml_id: bool) -> Result<String, String> {
+    let mut out = String::new();
+    let mut i = 0;
+    while i < s.len() {
+        let rest = &s[i..];
+        let c = rest.chars().next().unwrap();
+        if c == '&' {
+            let semi = rest.find(';').ok_or("unterminated reference in the slice")?;
+            let name = &rest[1..semi];
+            let ch = match name {
+                "lt" => '<',
+                "gt" => '>',
+                "amp" => '&',
+                "apos" => '\'',
+                "quot" => '"',
+                _ => {
+                    let v = if let Some(h) = name.strip_prefix("#x") {
+                        u32::from_str_radix(h, 16).map_err(|_| "bad hex reference")?
+                    } else if let Some(d) = name.strip_prefix('#') {
+                        d.parse::<u32>().map_err(|_| "bad decimal reference")?
+                    } else {
+                        return Err(format!("unknown entity {:?}", name));
+                    };
+                    char::from_u32(v).ok_or("bad code point")?
+                }
+            };
+            out.push(ch);
+            i += semi + 1;
+        } else if c == '\r' {
+            out.push(' ');
+            i += 1;
+            if s[i..].starts_with('\n') {
+                i += 1;
+            }
+        } else if c == '\n' || c == '\t' {
+            out.push(' ');
+            i += 1;
+        } else {
+            out.push(c);
+            i += c.len_utf8();
+        }
+    }
+    if xml_id {
+        out = out.split(' ').filter(|p| !p.is_empty()).collect::<Vec<_>>().join(" ");
+    }
+    Ok(out)
+}
+
+/// Self-consistency of the spans of a parsed tree against the source it was parsed from,
+/// independent of any expectation about the tree: every node has its spans, they lie inside the
+/// source on character boundaries, and the slice spells / decodes to the node's own value.
+pub fn span_self_check(xot: &Xot, doc: Node, si: &SpanInfo, source: &str) -> Option<(&'static str, &'static str, String)> {
+    let nodes = match guard(|| snap::bounded(xot.descendants(doc), 200_000)) {
+        Ok(Ok(v)) => v,
+        _ => return Some(("traversal", "tree", "descendants() failed".to_string())),
+    };
+    let len = source.len();
+    let get = |key: SpanInfoKey, item: &'static str| -> Result<(usize, usize), (&'static str, &'static str, String)> {
+        match si.get(key) {
+            None => Err(("span-missing", item, format!("a {} in the parsed tree has no span", item))),
+            Some(sp) => {
+                if sp.start > sp.end || sp.end > len || !source.is_char_boundary(sp.start) || !source.is_char_boundary(sp.end) {
+                    Err(("span-out-of-bounds", item, format!("span {}..{} of a {} is outside the source (len {}) or not on character boundaries", sp.start, sp.end, item, len)))
+                } else {
+                    Ok((sp.start, sp.end))
+                }
+            }
+        }
+    };
+    for n in nodes {
+        let r: Result<(), (&'static str, &'static str, String)> = (|| {
+            match xot.value(n) {
+                xot::Value::Document => {}
+                xot::Value::Element(e) => {
+                    let (s, en) = get(SpanInfoKey::ElementStart(n), "element-start")?;
+                    let slice = &source[s..en];
+                    let local = xot.local_name_str(e.name());
+                    if slice.rsplit(':').next() != Some(local) || slice.matches(':').count() > 1 {
+                        return Err(("slice-not-the-item", "element-start", format!("slice {:?} is not the qualified name of element {:?}", slice, local)));
+                    }
+                    let (s, en) = get(SpanInfoKey::ElementEnd(n), "element-end")?;
+                    let slice = &source[s..en];
+                    let ok = slice == "/>" || (slice.starts_with("</") && slice.ends_with('>') && slice[2..slice.len() - 1].trim_end().rsplit(':').next() == Some(local));
+                    if !ok {
+                        return Err(("slice-not-the-item", "element-end", format!("slice {:?} is neither '/>' nor the end tag of {:?}", slice, local)));
+                    }
+                    let names: Vec<(xot::NameId, String)> = xot.attributes(n).iter().map(|(k, v)| (k, v.clone())).collect();
+                    for (name, value) in names {
+                        let (s, en) = get(SpanInfoKey::AttributeName(n, name), "attribute-name")?;
+                        let slice = &source[s..en];
+                        let alocal = xot.local_name_str(name);
+                        if slice.rsplit(':').next() != Some(alocal) {
+                            return Err(("slice-not-the-item", "attribute-name", format!("slice {:?} is not the qualified name of attribute {:?}", slice, alocal)));
+                        }
+                        let (s, en) = get(SpanInfoKey::AttributeValue(n, name), "attribute-value")?;
+                        let slice = &source[s..en];
+                        let is_id = name == xot.xml_id_name();
+                        match decode_attr_slice(slice, is_id) {
+                            Ok(d) if d == value => {}
+                            other => {
+                                return Err(("slice-does-not-decode-to-value", "attribute-value", format!("slice {:?} decodes to {:?}, the attribute value is {:?}", slice, other, value)));
+                            }
+                        }
+                    }
+                }
+                xot::Value::Text(t) => {
+                    let (s, en) = get(SpanInfoKey::Text(n), "text")?;
+                    match decode_text_slice(source, s, en) {
+                        Ok(d) if d == t.get() => {}
+                        other => {
+                            return Err(("slice-does-not-decode-to-value", "text", format!("slice {:?} decodes to {:?}, the text node is {:?}", &source[s..en], other, t.get())));
+                        }
+                    }
+                }
+                xot::Value::Comment(c) => {
+                    let (s, en) = get(SpanInfoKey::Comment(n), "comment")?;
+                    if &source[s..en] != c.get() {
+                        return Err(("slice-not-the-item", "comment", format!("slice {:?} is not the comment body {:?}", &source[s..en], c.get())));
+                    }
+                }
+                xot::Value::ProcessingInstruction(pi) => {
+                    let (s, en) = get(SpanInfoKey::PiTarget(n), "pi-target")?;
+                    if &source[s..en] != xot.local_name_str(pi.target()) {
+                        return Err(("slice-not-the-item", "pi-target", format!("slice {:?} is not the PI target", &source[s..en])));
+                    }
+                    if let Some(d) = pi.data() {
+                        let (s, en) = get(SpanInfoKey::PiContent(n), "pi-content")?;
+                        if &source[s..en] != d {
+                            return Err(("slice-not-the-item", "pi-content", format!("slice {:?} is not the PI content {:?}", &source[s..en], d)));
+                        }
+                    }
+                }
+                _ => {}
+            }
+            Ok(())
+        })();
+        if let Err(e) = r {
+            return Some(e);
+        }
+    }
+    None
+}
+
 impl Parsing {
     fn prop(&self) -> &'static str {
         match self.0 {
@@ -209,6 +413,19 @@ impl Parsing {
                 return false;
             }
         };
+        if self.0 == PW::C17 {
+            if let Some(si) = &span_info {
+                if let Some((clause, item, what)) = span_self_check(&xot, d, si, &r.text) {
+                    ctx.violation(
+                        "a recorded span does not point at the right text",
+                        format!("{}/{}/self-check/{}/{}", prop, epn, clause, item),
+                        base(&what),
+                    );
+                    return false;
+                }
+                ctx.count("span_self_checks_passed");
+            }
+        }
         if got.tree != *doc {
             if self.0 == PW::C02 {
                 let dd = first_diff(doc, &got.tree).unwrap_or_default();
